@@ -401,11 +401,6 @@ func (m *Model) inCPSubtree(an, n *mnode) bool {
 
 // pruneTo drops every node that is not the anchor or a descendant of it.
 func (m *Model) pruneTo(an *mnode) []PrunedNode {
-	headRef, hs := m.Head(an.ref)
-	var head *mnode
-	if hs == HeadOK {
-		head = m.nodes[headRef]
-	}
 	var pruned []PrunedNode
 	var keep []*mnode
 	for _, n := range m.order {
@@ -414,10 +409,9 @@ func (m *Model) pruneTo(an *mnode) []PrunedNode {
 			continue
 		}
 		pn := PrunedNode{Ref: n.ref, AfterAnchor: n.seq > an.seq}
-		if head != nil {
-			pn.CanonT = m.inTSubtree(n, head)
-			pn.CanonF = m.inFSubtree(n, head)
-		}
+		// canonical <=> the finalized node descends from it
+		pn.CanonT = m.inTSubtree(n, an)
+		pn.CanonF = m.inFSubtree(n, an)
 		pruned = append(pruned, pn)
 	}
 	for _, p := range pruned {
